@@ -75,7 +75,27 @@ Proof.
   exists rs. repeat split; assumption.
 Qed.
 
+(* the per-case check: the boolean [optimal_b] that the L2 layer runs on the arrangement
+   the implementation returned (integer-valued cases) accepts exactly the minimum-cost
+   arrangements, so a case that passes it IS an instance of the property *)
+From TW Require Import OptB.
+Theorem C03_checker_sound : forall P (fs : list (frag NumZ)) (lws : list Z) rs,
+  optimal_b P fs lws rs = true ->
+  chain (length fs) 0 rs /\
+  forall rs', chain (length fs) 0 rs' ->
+    (arrangement_cost NumZ P fs lws rs <= arrangement_cost NumZ P fs lws rs')%Z.
+Proof. exact optimal_b_sound. Qed.
+
+Theorem C03_checker_complete : forall P (fs : list (frag NumZ)) (lws : list Z) rs,
+  (length lws <= 2)%nat -> fs <> [] -> chain (length fs) 0 rs ->
+  (forall rs', chain (length fs) 0 rs' ->
+     (arrangement_cost NumZ P fs lws rs <= arrangement_cost NumZ P fs lws rs')%Z) ->
+  optimal_b P fs lws rs = true.
+Proof. exact optimal_b_complete. Qed.
+
 Print Assumptions C03_lower_bound.
+Print Assumptions C03_checker_sound.
+Print Assumptions C03_checker_complete.
 Print Assumptions C03_optimal_given_column_minima.
 Print Assumptions C03_reference_optimal.
 Print Assumptions C03_column_minima_satisfiable.
